@@ -1,6 +1,7 @@
 // T-ext / T-std for D-a `line_changes_from_diff`: `unidiff::PatchSet` (opaque stand-in: its parser
 // is external, DESIGN section 4 "not extracted") and `std::path::PathBuf`.
-// Needs prelude/anyhow.rs (outside verus!), prelude/diff_unidiff.rs, prelude/diff_lines_spec.rs.
+// Needs prelude/anyhow.rs (outside verus!), prelude/diff_unidiff.rs, prelude/diff_lines_spec.rs,
+// prelude/diff_parse_hunk.rs.
 
 #[verifier::external_type_specification]
 #[verifier::external_body]
@@ -58,13 +59,21 @@ impl PatchSet {
 pub uninterp spec fn parse_patch(text: Seq<char>) -> Option<Seq<PatchedFile>>;
 
 /// E1/E14 shim for `PatchSet::from_str(s)?`-style use: the error value is converted to
-/// `anyhow::Error` (text not verified). T-ext: every parsed file is `file_numbered`
-/// (unidiff-0.4.0 `parse_hunk`: `+` lines get `target_line_no`, `-` lines `source_line_no`).
+/// `anyhow::Error` (text not verified).
+/// T-ext: every hunk of every parsed file is `hunk_parsed` (`file_parsed`). `hunk_parsed` is not a
+/// guess about the crate: it is the postcondition of unidiff-0.4.0 `PatchedFile::parse_hunk` PROVED on
+/// the crate's text (unit X.parse_hunk, group unidiffparse: every line gets exactly the numbers of
+/// its kind from the running cursors). What this clause still ASSUMES is the wiring around it:
+/// `PatchSet::from_str` = `parse`, which creates hunks nowhere but in `parse_hunk` (called once per
+/// `@@` line with the lines behind it), pushes the returned hunk unchanged and clones the finished
+/// file (`derive(Clone)`); and that the three labelled preconditions of X.parse_hunk hold at that call
+/// (header numbers and `enumerate()` indices of an in-memory text do not overflow `usize`).
+/// `file_numbered` - what D-b's `unwrap`s need - is DERIVED from it (`lemma_parsed_file_numbered`).
 #[verifier::external_body]
 pub fn verif_patchset_from_str(s: &str) -> (r: anyhow::Result<PatchSet>)
     ensures
         r matches Ok(ps) ==> parse_patch(s@) == Some(ps.spec_files())
-            && forall|i: int| 0 <= i < ps.spec_files().len() ==> file_numbered(#[trigger] ps.spec_files()[i]),
+            && forall|i: int| 0 <= i < ps.spec_files().len() ==> file_parsed(#[trigger] ps.spec_files()[i]),
         r is Err ==> parse_patch(s@) is None,
 { unimplemented!() }
 
